@@ -752,6 +752,14 @@ func contextAfterText(c context, s []byte) (context, int) {
 			}, len(s)
 		}
 	}
+	// Static text after an action that started the value must not change what that action was
+	// sanitized for.
+	if err := validateTextAfterStartAction(c, string(s[:i])); err != nil {
+		return context{
+			state: stateError,
+			err:   errorf(ErrEscapeAction, nil, 0, "%s", err),
+		}, len(s)
+	}
 	if i == len(s) {
 		c.attr.value += string(s)
 		// Remain inside the attribute.
